@@ -515,6 +515,10 @@ def body(ctx):
         uncompilable[0] += len(dropped)  # implicit policy may forbid some pairs (C06's business)
     ctx.log("two-parameter operations: %d unit/rep pairs analysed, %d not permitted by the implicit policy" % (ntwo[0], uncompilable[0]))
     ctx.require(nconv >= 100, "only %d conversion wrappers analysed" % nconv)
+    # (on the tree as it is none of these is refused in the quick tier; the policy may refuse a few of
+    #  the thorough tier's pairs - a quarter of them refused means the scope has shrunk, not the policy)
+    ctx.require(dropped_n[0] * 4 <= max(4, nconv + dropped_n[0]), "%d of %d conversion wrapper pairs do not compile" % (dropped_n[0], nconv + dropped_n[0]))
+    ctx.require(uncompilable[0] * 4 <= max(4, ntwo[0] + uncompilable[0]), "%d of %d two-parameter blocks do not compile" % (uncompilable[0], ntwo[0] + uncompilable[0]))
     ctx.require(ntwo[0] >= 5, "only %d two-parameter blocks analysed" % ntwo[0])
     for key, what, detail in findings:
         ctx.violation(key, what, detail)
